@@ -127,6 +127,9 @@ void net_callback_connect(JanetFiber *fiber, JanetAsyncEvent event) {
     switch (event) {
         default:
             break;
+        /* The collector's visit is not a readiness event: checking SO_ERROR here would complete
+         * the connect (and schedule the fiber) in the middle of a garbage collection. */
+        case JANET_ASYNC_EVENT_MARK:
 #ifndef JANET_WINDOWS
         /* Wait until we have an actual event before checking.
          * Windows doesn't support async connect with this, just try immediately.*/
